@@ -4,14 +4,24 @@ C20 — in-stream table definitions govern the messages that follow them.
 Theorems: lean/BufrModel/Props/C20.lean (extraction inverts the NCEP layout, extended lookup, by-source
 Table D resolution equals the merged lookup, shape of `_fix_ncep_descriptors`).
 
-Generated streams: 1..3 definition messages in the NCEP layout (data category 11, template
+Generated streams: 1..4 definition messages in the NCEP layout (data category 11, template
 `103000 031001 000001 000002 000003 101000 031001 300004 105000 031001 300003 205064 101000 031001 000030`,
-encoded by the implementation's Encoder from the field strings) defining 1..12 elements of classes 48-63
-(random width, signed scale, signed reference, units numeric / CODE TABLE / FLAG TABLE / CCITT IA5; some
-redefine bundled or earlier in-stream elements) and 1..5 sequences 3-48-xxx..3-63-xxx over them (nesting,
-fixed / delayed replication, NCEP replication-only sequences; some redefine earlier in-stream sequences),
-followed by (or interleaved with) 1..4 data messages over those descriptors whose values come from the
-model's generate mode, plus one message over descriptors the definitions do not mention.
+encoded by the implementation's Encoder from the field strings) defining elements of classes 48-63 (random width,
+signed scale, signed reference, units numeric / CODE TABLE / FLAG TABLE / CCITT IA5) and sequences
+3-48-xxx..3-63-xxx over them (nesting, fixed / delayed replication, NCEP replication-only sequences), with data
+messages BETWEEN and after them (values from the model's generate mode) and one message over descriptors the
+definitions do not mention.  A later definition message (StreamGen.def_message) adds new ids, ONLY re-defines ids
+defined in stream before (other attributes / members, nothing new), does both, has exactly the shape (ids, lengths)
+of an earlier one, repeats an earlier one byte for byte, re-defines bundled ids, defines ids that a sequence of an
+earlier message already mentions (forward / complete), or is empty.  All messages of a stream use the same table
+versions; data messages prefer the ids the last definition message affected and reuse earlier section-3 templates.
+Every message must be decoded by the definitions in force at its position (later definition wins from there on).
+
+MODEL STREAM RUN: `tabledef-stream` = TableDef.specRun (lean/BufrModel/Msg/TableStream.lean) decodes the whole stream
+on the file tables, extracting and applying the definitions itself; compared message by message with what
+`generate_bufr_message` yields (plain and with compiled templates, cache sizes 1 / 2 / 16).  Theorems
+(Props/C20Stream.lean): each message is decoded with `extend files (definitions before it)`, later definition wins,
+and the cache model with generation-keyed invalidation (implRun) refines specRun.
 
 ORACLE (implementation only): the data messages decoded one by one by `Decoder(tables_root_dir=<scratch>)`
 after the process-global cache has been replaced by a fresh one, where <scratch> (under /tmp, unique per
@@ -50,11 +60,20 @@ META = dict(
          'tables extended in stream equals the one built against files that contain the entries, also with the '
          'by-source member resolution of TableD when no older sequence mentions a redefined id (C20_as_if_in_files, '
          'C20_by_source); _fix_ncep_descriptors is the identity on trees without member-less replications and gives a '
-         'replication-only sequence the descriptor that follows it (C20_fix_ncep).  Decoding of the following '
-         'messages is the coder model of C01 run on the extended tables.  Correspondence: generated definition/data '
-         'streams, layout variants and prepbufr.bufr, model vs implementation on entries, template trees, labels, '
-         'values, links; oracle: the implementation itself with the entries written into scratch table files.',
-    technique='Lean 4 theorems (induction over entry lists, template ids and descriptor trees) + checked '
+         'replication-only sequence the descriptor that follows it (C20_fix_ncep).  For an arbitrary stream of definition '
+         'and data messages every message is decoded against the files extended by all definitions before it, a later '
+         'definition of an id replacing the earlier one from that point on (C20_stream_each_message, '
+         'C20_stream_later_definition_wins), and the loop of generate_bufr_message with the table group cache, '
+         'invalidate/add_extra_entries and the compiled-template cache keyed by the generation of the extra entries '
+         'delivers exactly that (C20_stream_cache_refines; a count-based invalidation does not: '
+         'C20_stream_count_based_invalidation_differs).  Decoding itself is the coder model of C01 run on the '
+         'extended tables.  Correspondence: generated streams of 1..4 definition messages (new ids, redefinition-only, '
+         'same-shape, repeated, bundled ids, forward references, empty) with data messages between and after them, the '
+         'whole stream run by the model (specRun) vs generate_bufr_message with and without compiled templates; layout '
+         'variants and prepbufr.bufr; model vs implementation on entries, template trees, labels, values, links; '
+         'oracle: the implementation itself with the entries in force at the position of the message written into '
+         'scratch table files.',
+    technique='Lean 4 theorems (induction over entry lists, template ids, descriptor trees and streams; cache invariant) + checked '
               'model/implementation correspondence + file-based differential oracle on the implementation',
     note='Strings are modelled on ASCII; int() on ASCII digits/sign/underscore/whitespace; the fix gate '
          '(has_extra_entries) is process-global state and is reproduced by a flag.',
